@@ -95,9 +95,7 @@ pub fn run_seed(args: &[String]) {
         }
         add("segments:drop-last".into(), &|q| { q.segments.pop(); });
         let n = pi.main_page.len();
-        let mut idxs: Vec<usize> = vec![0, n / 2, n - 1];
-        for _ in 0..4 { idxs.push(rng.below(n as u64) as usize); }
-        idxs.sort(); idxs.dedup();
+        let idxs: Vec<usize> = (0..n).collect();
         for &i in &idxs {
             add(format!("main_page[{i}].address+1"), &|q| q.main_page.0[i].address += Felt::ONE);
             add(format!("main_page[{i}].value+1"), &|q| q.main_page.0[i].value += Felt::ONE);
@@ -115,20 +113,24 @@ pub fn run_seed(args: &[String]) {
         add("headers:+(7,8,9),(7,8,9)".into(), &|q| { q.continuous_page_headers.push(hdr(7, 8, 9)); q.continuous_page_headers.push(hdr(7, 8, 9)); });
         if let Some(dp) = &pi.dynamic_params {
             let v: Vec<usize> = dp.clone().into();
-            for k in [0usize, v.len() / 2, v.len() - 1, rng.below(v.len() as u64) as usize] {
+            for k in 0..v.len() {
                 add(format!("dynamic_params[{k}]+1"), &|q| { let mut w: Vec<usize> = q.dynamic_params.clone().unwrap().into(); w[k] += 1; q.dynamic_params = Some(swiftness_air::dynamic::DynamicParams::from(w)); });
             }
         }
         variants.push(("nvf+1".into(), clone_pi(pi), nvf + Felt::ONE));
         let mut seen: std::collections::HashMap<Felt, String> = Default::default();
-        for (name, q, nv) in &variants {
+        // a perturbation that happens to leave the input unchanged (e.g. swapping two equal values) is not a different input
+        let ser = |q: &PublicInput, nv: &Felt| -> String { format!("{}|{:#x}", serde_json::to_string(q).unwrap(), nv) };
+        let mut distinct: std::collections::HashSet<String> = Default::default();
+        variants.retain(|(_, q, nv)| distinct.insert(ser(q, nv)));
+        let computed = par_map(&variants, n_threads(), |_, (_, q, nv)| (guarded(|| q.get_hash(*nv)), seed_ref(q, *nv)));
+        for ((name, _q, _nv), (got, reference)) in variants.iter().zip(computed.into_iter()) {
             cases += 1;
-            let got = guarded(|| q.get_hash(*nv));
             let desc = json!({"layout": layout, "variant": name});
             match got {
                 Err(p) => { bad += 1; out.line(&json!({"ok": false, "kind": "real", "why": format!("get_hash panicked: {p}"), "case": desc})); }
                 Ok(g) => {
-                    if g != seed_ref(q, *nv) { bad += 1; out.line(&json!({"ok": false, "kind": "real", "why": "get_hash differs from the reference SeedTerm evaluation", "case": desc})); }
+                    if g != reference { bad += 1; out.line(&json!({"ok": false, "kind": "real", "why": "get_hash differs from the reference SeedTerm evaluation", "case": desc})); }
                     // nvf is part of the statement only under Stone 6
                     let expect_same_as_base = name == "nvf+1" && !STONE6;
                     if let Some(other) = seen.get(&g) {
@@ -243,9 +245,22 @@ pub fn run_validate(args: &[String]) {
             let plen = (initial_ap - 3) as usize;
             let (ob, os) = (to_u64(&pi.segments[2].begin_addr).unwrap(), to_u64(&pi.segments[2].stop_ptr).unwrap());
             let olen = (os - ob) as usize;
-            let npage = pi.main_page.len();
+            let eo = pd.starts_with("eo:");
+            if eo {
+                // empty output segment: the page carries no output cells
+                pi.segments[2].stop_ptr = pi.segments[2].begin_addr;
+                let keep = pi.main_page.len() - olen;
+                pi.main_page.0.truncate(keep);
+            }
+            let (olen, npage) = if eo { (0usize, pi.main_page.len()) } else { (olen, pi.main_page.len()) };
             let page = &mut pi.main_page.0;
             match pd {
+                "eo:none" => {}
+                "eo:keep-1" => page.truncate(1),
+                "eo:empty" => page.clear(),
+                "eo:drop-last" => { if npage > plen { page.pop(); } }
+                "eo:drop-program-tail" => page.truncate(plen - 1),
+                "eo:addr+1@program" => page[1].address += Felt::from(3),
                 "none" => {}
                 "shift-all" => for cell in page.iter_mut() { cell.address += Felt::from(1000); },
                 "addr+1@program" => page[1].address += Felt::from(3),
@@ -263,7 +278,7 @@ pub fn run_validate(args: &[String]) {
             }
             n += 1;
             let base_vals: Vec<Felt> = pi0.main_page.iter().map(|c| c.value).collect();
-            let base_hashes = (chain(&base_vals[..plen]), chain(&base_vals[npage - olen..]));
+            let base_hashes = if eo { (chain(&base_vals[..plen]), chain(&[])) } else { (chain(&base_vals[..plen]), chain(&base_vals[npage - olen..])) };
             let r = real::dispatch!(layout.as_str(), verify_g, &pi);
             let either = pd == "swap-program-cells" || pd == "append-after-output";
             let expect_ok = c["pageok"].as_bool().unwrap();
